@@ -13,6 +13,19 @@ Specification: spec/P2Bin.tla (on top of spec/CodeFile.tla)
   * LANE PHASE: image starts (-r lower bound / lowest used address x granularity) of ANY phase of the -m lane period are judged
     (Definite asks only for a whole-period LENGTH; P2Bin_MC_phase*/CoverPhase*.cfg, SimLo/SimHi, shifted corpus windows): before,
     such cases were generated but counted "manual silent", so a target position taken from the distance to the start went unseen.
+  * HEADER FORM x FAMILY: an item of a case may carry short = TRUE: the record stands in the file with the one-byte
+    header $01..$7f as PBIND / ALINK write CODE records (AS itself only writes long headers); such an item has no seg /
+    gran of its own.  P2Bin!ReadRecordHeader + Granularity (operational, toolutils.c case by case) and P2Bin!DRead
+    (declarative: CODE, granularity implied by the processor type whatever record stands before) say what it means;
+    ReadAgrees checks the two against each other.  FormCases (P2Bin_MC_forms*/CoverForms*.cfg): one family per case -
+    every class of Granularity(): default 1, 2, 4 and ALL five whose value depends on the segment (AVR $3b, PDK13..16
+    $1a..$1d: 2 in CODE, 1 elsewhere), thorough: every id the table names + ids 1 and 127 - x every sequence of <= 3
+    records each short CODE / long CODE / long DATA (/ long IO) x automatic / explicit range x -segment (x lanes); the
+    simulated cases mix short-header records and AVR/PDK DATA records in; real code files additionally run through the
+    real pbind first (files with several segments or an AVR/PDK record always, a fifth of the others; thorough: all),
+    tokenised with their header forms.  The renderer writes exactly the form the case names.  Before, the header form
+    was a coin of the renderer limited to families with ONE granularity, so a reader that derives the implied
+    granularity from anything but (family, CODE) - e.g. the segment of the preceding record - went unseen.
 (F) spec/FilterList.tla: the option state behind -f (shared toolutils.c CMD_FilterList/FilterOK + cmdarg.c ProcessCMD):
     a case carries the SEQUENCE of -f (add) / +f (cancel) operations, those preset through P2BINCMD first; operational =
     the FilterBytes array with append-unless-found and swap-remove, declarative = an id is in the filter iff the last
@@ -20,9 +33,9 @@ Specification: spec/P2Bin.tla (on top of spec/CodeFile.tla)
     operations over 4 ids.  P2Bin_CoverFilt.cfg replays every sequence of FilterList!FPatterns (lists of 1..4 families;
     cancel first / middle / last / absent / repeated / all; cancel before add; re-add; duplicates; the same through
     P2BINCMD with and without command-line operations after it) and BigPatterns (the 100 entries the array holds).
-(M) P2Bin_MC: the program as a step machine over EVERY case of four bounded case spaces (cfg files P2Bin_MC_*.cfg:
+(M) P2Bin_MC: the program as a step machine over EVERY case of its bounded case spaces (cfg files P2Bin_MC_*.cfg:
     window x lanes x overlaps; selection by -f/-segment/granularity; header/entry/checksum; several files with
-    offsets): Conforms (output satisfies the declarative property), StepRunAgrees, ChunkListOK, WindowStable,
+    offsets; lane phase; header forms x families): Conforms (output satisfies the declarative property), StepRunAgrees, ChunkListOK, WindowStable,
     MeasureSound, UsedIsCoverage.  Also run once per named deviation d with Dev = {d}: TLC must FIND the defect
     (shows the deviation operators are not vacuous and the declarative side really forbids the pinned behaviour).
 (G) P2Bin_Gen: every case of the `cover` space (exhaustive for its constants) and TLC-simulated wide cases (<= 4 items
@@ -57,12 +70,18 @@ MUTATIONS tried (scratch copies, VERIF_REPO; list with sed expressions in selfte
     reading the slot past the end (`FilterBytes[FilterCnt--]`), which only shows with -f a,b,c +f <non-last entry>.
   detected after the lane-phase dimension was added (925 violations in the quick tier, none before): fseek target
     LaneBytesBelow((ErgStart - StartAdr) * Gran) instead of LaneBytesBelow(ErgStart * Gran) - LaneBytesBelow(StartAdr * Gran).
+  detected after the header-form x family dimension was added (none before): toolutils.c ReadRecordHeader computing
+    Granularity(CPU, Segment) of a one-byte header BEFORE Segment is set to CODE, i.e. with the segment of the record
+    before (an AVR/PDK short-header CODE record after a DATA record is read with granularity 1): 838 violations in the
+    quick tier; `case 0x1b:` (PDK14) deleted from Granularity(): 254 violations.  Also detected (and already before, by
+    a short-header record first in a file): `*Segment = SegCode;` of that branch deleted.
   equivalent (exit 0, rightly): `+1` in LaneBytesBelow (cancels in the difference).
   reported as KNOWN-FINDING only: removing the repaired secondary overlap test from the fixed tree (it IS the known
     defect; becomes a VIOLATION when known_findings/C05.json flips that entry to "fixed").
 """
 import json
 import os
+import struct
 
 from vlib import aslrun, build, codefile, tlc, utilrun
 from vlib.common import CheckError, Phase, log, pmap, rng, scratch
@@ -74,23 +93,46 @@ SEGNAMES = {1: "code", 2: "data", 3: "idata", 4: "xdata", 5: "ydata", 6: "bitdat
 ADDR_BOUND = 1 << 24
 
 MC_QUICK = ["P2Bin_MC_window.cfg", "P2Bin_MC_overlap.cfg", "P2Bin_MC_select.cfg", "P2Bin_MC_post.cfg",
-            "P2Bin_MC_files.cfg", "P2Bin_MC_phase.cfg"]
+            "P2Bin_MC_files.cfg", "P2Bin_MC_phase.cfg", "P2Bin_MC_forms.cfg"]
 MC_THOROUGH = ["P2Bin_MC_window3.cfg", "P2Bin_MC_overlap.cfg", "P2Bin_MC_select3.cfg", "P2Bin_MC_post.cfg",
-               "P2Bin_MC_files3.cfg", "P2Bin_MC_phase3.cfg"]
+               "P2Bin_MC_files3.cfg", "P2Bin_MC_phase3.cfg", "P2Bin_MC_forms3.cfg", "P2Bin_MC_formsseg.cfg"]
 DEV_CFG = {d: "P2Bin_MC_dev_%s.cfg" % d for d in DEVS}
 
 
 # ------------------------------------------------------------------------------------------------
 # rendering a case (TLA+ record as JSON) into files + argv, and reading the observation back
 # ------------------------------------------------------------------------------------------------
+def render_items(items, r, creator=b"VERIF 1.0"):
+    """write one code file.  An item that carries the field `short` is written with exactly that header form (TRUE: the
+    one-byte header $01..$7f = cpu, nothing else -- segment and granularity are what the SPECIFICATION says such a
+    record means, the renderer knows no table); for an item without the field the form is a rendering choice as before
+    (utilrun.can_short: families with one granularity only)."""
+    out = bytearray(utilrun.MAGIC)
+    coin = [r.random() < 0.5 for _ in items]
+    for it, heads in zip(items, coin):
+        if it["k"] == "E":
+            out += b"\x80" + struct.pack("<I", it["addr"] & 0xFFFFFFFF)
+            continue
+        data = bytes(it["data"])
+        if "short" in it:
+            use_short = bool(it["short"])
+        else:
+            use_short = heads and utilrun.can_short(it)
+        if use_short:
+            out.append(it["cpu"])
+        else:
+            out += bytes([0x81, it["cpu"], it["seg"], it["gran"]])
+        out += struct.pack("<IH", it["start"] & 0xFFFFFFFF, len(data)) + data
+    return bytes(out + b"\x00" + creator)
+
+
 def render(c, r):
     o = c["o"]
     files = {}
     names = []
     for fi, f in enumerate(c["files"]):
         name = "f%d" % fi
-        short = [r.random() < 0.5 for _ in f["items"]]
-        files[name + ".p"] = utilrun.render_file(f["items"], short=short)
+        files[name + ".p"] = render_items(f["items"], r)
         arg = name + (".p" if r.random() < 0.7 else "")
         if f["off"] or r.random() < 0.2:
             arg += "(%s)" % utilrun.num(f["off"], r.randrange(4))
@@ -148,29 +190,38 @@ def observe(res):
 # corpus-derived cases: real code files, seed-chosen options
 # ------------------------------------------------------------------------------------------------
 def corpus_items(pbytes):
-    """tokenise a code file into the abstract items of spec/CodeFile.tla; None if outside the model"""
+    """tokenise a code file into the abstract items of spec/CodeFile.tla; None if outside the model.  A record with the
+    one-byte header becomes an item {cpu, start, data, short: true} WITHOUT seg / gran: what it means is the
+    specification's business (P2Bin!DRead).  Second result: per item the (seg, gran) the tokeniser assumes -- used only to
+    choose windows worth trying, never for a judgement."""
     pr = codefile.parse(pbytes)
     if not pr.well_formed:
-        return None
-    items = []
+        return None, None
+    items, hints = [], []
     for rec in pr.records:
         if rec.kind == "data":
             if rec.start + len(rec.data) >= ADDR_BOUND or rec.hdr != 0x81 and not rec.short:
-                return None
-            items.append({"k": "D", "cpu": rec.cpu, "seg": rec.seg, "gran": rec.gran, "start": rec.start,
-                          "data": list(rec.data)})
+                return None, None
+            if rec.short:
+                items.append({"k": "D", "cpu": rec.cpu, "start": rec.start, "data": list(rec.data), "short": True})
+            else:
+                items.append({"k": "D", "cpu": rec.cpu, "seg": rec.seg, "gran": rec.gran, "start": rec.start,
+                              "data": list(rec.data)})
+            hints.append((rec.seg, rec.gran))
         elif rec.kind == "entry":
             if rec.start >= ADDR_BOUND:
-                return None
+                return None, None
             items.append({"k": "E", "addr": rec.start})
+            hints.append(None)
         elif rec.kind == "other":
-            return None
-    return items
+            return None, None
+    return items, hints
 
 
-def corpus_options(items, r, maxwin):
+def corpus_options(items, hints, r, maxwin):
     """a few option sets for one real file (what to try is a rendering choice; the judgement is TLC's)"""
-    data = [it for it in items if it["k"] == "D" and it["data"]]
+    data = [{"seg": h[0], "gran": h[1], "start": it["start"], "data": it["data"], "cpu": it["cpu"]}
+            for it, h in zip(items, hints) if it["k"] == "D" and it["data"]]
     if not data:
         return []
     segs = sorted({it["seg"] for it in data})
@@ -333,16 +384,17 @@ def main(tier):
 
     # (G) ------------------------------------------------------------------------------------------
     cases = []
-    for cfg in (["P2Bin_Cover.cfg", "P2Bin_CoverOvl.cfg", "P2Bin_CoverBig.cfg", "P2Bin_CoverFilt.cfg", "P2Bin_CoverPhase.cfg"]
+    for cfg in (["P2Bin_Cover.cfg", "P2Bin_CoverOvl.cfg", "P2Bin_CoverBig.cfg", "P2Bin_CoverFilt.cfg", "P2Bin_CoverPhase.cfg",
+                 "P2Bin_CoverForms.cfg"]
                 if tier == "quick"
                 else ["P2Bin_Cover1.cfg", "P2Bin_CoverOvl.cfg", "P2Bin_CoverBig.cfg", "P2Bin_CoverFilt.cfg", "P2Bin_Cover2.cfg",
-                      "P2Bin_CoverPhase1.cfg"]):
+                      "P2Bin_CoverPhase1.cfg", "P2Bin_CoverForms1.cfg", "P2Bin_CoverForms2.cfg"]):
         with Phase("TLC " + cfg):
             cov = tlc.must(tlc.run("P2Bin_Gen", cfg, timeout=1500, mem="8g"), cfg)
         rep.model("P2Bin_Gen(%s)" % cfg, cov)
         cases += [("cover", x) for (tag, x) in cov.printed if tag == "TR"]
     ncover = len(cases)
-    nsim = 300 if tier == "quick" else 3000
+    nsim = 340 if tier == "quick" else 3400
     with Phase("TLC simulate"):
         sim = tlc.must(tlc.run("P2Bin_Gen", "P2Bin_Sim.cfg", workers=4, simulate=nsim, depth=12, timeout=1500,
                                mem="8g"), "P2Bin_Gen simulate")
@@ -399,17 +451,39 @@ def main(tier):
         return t[0], res.p
     with Phase("assemble %d golden tests" % len(tests)):
         ps = pmap(asm, tests)
-    cjobs, ccases, skipped = [], [], 0
+    # the same programs as PBIND writes them (one-byte headers for CODE records of default granularity, long headers
+    # for the rest): the real pbind is only the PRODUCER of these inputs, the independent reader tokenises what it wrote.
+    # Quick tier: every file with records of more than one segment or of a family whose granularity depends on the
+    # segment, and a seed-chosen fifth of the others.
+    SEGDEP = {0x3b, 0x1a, 0x1b, 0x1c, 0x1d}
+    bsrc = []
     for name, p in ps:
+        if p is None or len(p) > maxsize:
+            continue
+        pr = codefile.parse(p)
+        recs = pr.data_records() if pr.well_formed else []
+        if not recs:
+            continue
+        special = len({rc.seg for rc in recs}) > 1 or any(rc.cpu in SEGDEP for rc in recs)
+        if tier != "quick" or special or rng("c05/bind/" + name).random() < 0.2:
+            bsrc.append((name, p))
+    with Phase("pbind on %d golden code files" % len(bsrc)):
+        bres = utilrun.run_many(bld, "pbind", [{"argv": ["src.p", "bound.p"], "files": {"src.p": p}, "want": ["bound.p"]}
+                                               for (_, p) in bsrc])
+    bound = [(name + "+pbind", res["files"].get("bound.p")) for (name, _), res in zip(bsrc, bres)]
+    nshort = 0
+    cjobs, ccases, skipped = [], [], 0
+    for name, p in ps + bound:
         if p is None or len(p) > maxsize:
             skipped += 1
             continue
-        items = corpus_items(p)
+        items, hints = corpus_items(p)
         if items is None:
             skipped += 1
             continue
+        nshort += sum(1 for it in items if it.get("short"))
         rr = rng("c05/corpus/" + name)
-        for o in corpus_options(items, rr, maxwin):
+        for o in corpus_options(items, hints, rr, maxwin):
             c = {"files": [{"off": 0, "items": items}], "o": o}
             job = render(c, rr)
             job["files"] = {"f0.p": p}          # the real file, not a re-rendering
@@ -421,7 +495,8 @@ def main(tier):
         rep.evaluated()
         rep.distinct("corpus/%s/%s" % (name, json.dumps(c["o"], sort_keys=True)))
         pending.append(("golden test %s" % name, c, job, observe(res), {"rc": "?", "bytes": [], "warn": "?"}))
-    rep.part("corpus", files=len(ps) - skipped, skipped_outside_model=skipped, cases=len(cjobs))
+    rep.part("corpus", files=len(ps) + len(bound) - skipped, skipped_outside_model=skipped, cases=len(cjobs),
+             bound_by_pbind=len(bound), short_header_records=nshort)
     rep.traces(len(cjobs))
     judge(rep, tier, pending, bld)
     return rep.finish(
